@@ -11,6 +11,7 @@ import (
 
 	"github.com/Comcast/sheens/core"
 	"github.com/Comcast/sheens/interpreters/ecmascript"
+	"github.com/Comcast/sheens/interpreters/noop"
 	"github.com/Comcast/sheens/match"
 )
 
@@ -230,6 +231,8 @@ func interpreters() core.Interpreters {
 }
 
 // build renders the abstract spec as a core.Spec and compiles it.
+var buildCount int
+
 func (s *ASpec) build() (*core.Spec, error) {
 	spec := &core.Spec{
 		Name:                "gen",
@@ -265,6 +268,14 @@ func (s *ASpec) build() (*core.Spec, error) {
 	}
 	if s.SkipCompile {
 		return spec, nil
+	}
+	buildCount++
+	if buildCount%4 == 0 {
+		// a tool's dry run with the no-op interpreters comes first (tools.ReadAndRenderSpecPage compiles that way);
+		// the compilation for real must replace everything the dry run built
+		noopInts := noop.NewInterpreters()
+		noopInts.I.Silent = true
+		spec.Compile(context.Background(), noopInts, true)
 	}
 	if err := spec.Compile(context.Background(), interpreters(), true); err != nil {
 		return nil, err
